@@ -2,11 +2,12 @@
 # tools/seedcheck.sh <Cnn> <i> [checks]: confirm a sub-agent's seeded change myself in its scratch
 # worktree (/tmp/seed/<Cnn>), run my checks against it, store it under /verif/seeded/<Cnn>-<i>/.
 set -u
-id="$1"; i="$2"; checks="${3:-$id}"
-W=/tmp/seed/$id; O=$W/_out
+id="$1"; i="$2"; checks="${3:-$id}"; odir="${4:-_out}"; off="${5:-0}"
+W=/tmp/seed/$id; O=$W/$odir
+n=$((i+off))
 export GOFLAGS=-mod=mod GOPROXY=off GOSUMDB=off GOTOOLCHAIN=local
 [ -f $O/patch$i.diff ] || { echo "no patch$i"; exit 2; }
-git -C $W checkout -q -- . ; git -C $W clean -qfd -e _out
+git -C $W checkout -q -- . ; git -C $W clean -qfd -e _out -e _out2
 pkgline=$(grep -m1 '^package ' $O/demo${i}_test.go)
 case "$pkgline" in *field*) sub=field;; *) sub=.;; esac
 run_demo() { cp $O/demo${i}_test.go $W/$sub/zz_demo${i}_test.go; ( cd $W/$sub && timeout 900 go test -vet=off -count=1 -run "^TestDemo$i\$" . >/tmp/seed/demo.log 2>&1 ); rc=$?; rm -f $W/$sub/zz_demo${i}_test.go; return $rc; }
@@ -14,7 +15,7 @@ run_demo; clean_demo=$?
 git -C $W apply $O/patch$i.diff || { echo "patch does not apply"; exit 2; }
 ( cd $W && go build ./... && go test -vet=off -count=1 ./... >/tmp/seed/suite.log 2>&1 ); suite=$?
 run_demo; patched_demo=$?
-echo "$id-$i: demo on clean tree rc=$clean_demo (want 0); suite with patch rc=$suite (want 0); demo with patch rc=$patched_demo (want !=0)"
+echo "$id-$n: demo on clean tree rc=$clean_demo (want 0); suite with patch rc=$suite (want 0); demo with patch rc=$patched_demo (want !=0)"
 verdicts=""
 for c in ${checks//,/ }; do
   out="$(VERIF_REPO=$W VERIF_OUT=/tmp/seed/out_$id /verif/check $c quick 2>&1)"; rc=$?
@@ -22,16 +23,16 @@ for c in ${checks//,/ }; do
   echo "   check $c rc=$rc $line"
   verdicts="$verdicts $c:rc=$rc"
 done
-mkdir -p /verif/seeded/$id-$i
-cp $O/patch$i.diff /verif/seeded/$id-$i/patch.diff; cp $O/demo${i}_test.go /verif/seeded/$id-$i/demo_test.go; cp $O/note$i.txt /verif/seeded/$id-$i/note.txt 2>/dev/null
-python3 - "$id" "$i" "$clean_demo" "$suite" "$patched_demo" "$verdicts" "$sub" <<'PY'
+mkdir -p /verif/seeded/$id-$n
+cp $O/patch$i.diff /verif/seeded/$id-$n/patch.diff; cp $O/demo${i}_test.go /verif/seeded/$id-$n/demo_test.go; cp $O/note$i.txt /verif/seeded/$id-$n/note.txt 2>/dev/null
+python3 - "$id" "$n" "$clean_demo" "$suite" "$patched_demo" "$verdicts" "$sub" <<'PY'
 import json,sys
 id,i,cd,su,pd,ver,sub=sys.argv[1:8]
 note=open('/verif/seeded/%s-%s/note.txt'%(id,i)).read() if True else ''
 json.dump({"property":id,"seed":int(i),"origin":"independent sub-agent given only the property text and a scratch worktree",
  "needs_to_manifest":note.strip(),
  "confirmed_by_me":{"demo_passes_on_unmodified_tree":cd=="0","existing_suite_passes_with_patch":su=="0","demo_fails_with_patch":pd!="0",
-   "commands":["git apply patch.diff","go test -vet=off -count=1 ./...","go test -vet=off -count=1 -run '^TestDemo%s$' . (demo copied into %s)"%(i,sub)]},
+   "commands":["git apply patch.diff","go test -vet=off -count=1 ./...","go test -vet=off -count=1 -run '^TestDemo<k>$' . (demo copied into %s)"%(sub)]},
  "my_checks_quick":ver.strip()},open('/verif/seeded/%s-%s/meta.json'%(id,i),'w'),indent=1)
 PY
-git -C $W checkout -q -- . ; git -C $W clean -qfd -e _out; rm -rf /tmp/seed/out_$id
+git -C $W checkout -q -- . ; git -C $W clean -qfd -e _out -e _out2; rm -rf /tmp/seed/out_$id
